@@ -40,7 +40,11 @@ class Walk:
             v = r.choice([0, 1, 3, 10, 40, 200])
             fs.append("%d.%d" % (k, v))
         if big_ok and r.random() < self.p.get("bighdr", 0.04):
-            fs.append("%d.%d" % (r.randrange(2, 30), r.choice(BIGHDR) + r.randrange(0, 3)))
+            if r.random() < 0.5:
+                # "x-h3" with n 'd's: the HPACK block is 16384 / 32768 bytes long for n around 21834 / 43682 (calibrated)
+                fs = ["3.%d" % (r.choice([21828, 43676]) + r.randrange(0, 14))]
+            else:
+                fs.append("%d.%d" % (r.randrange(2, 30), r.choice(BIGHDR) + r.randrange(0, 3)))
         return ",".join(fs) or "-"
 
     def new_stream(self):
@@ -58,7 +62,7 @@ class Walk:
     def some_id(self):
         r = self.r
         if self.wild and r.random() < 0.08:
-            pool = self.dead + [self.next_id, self.next_id + 2, 0]
+            pool = self.dead + [self.next_id, self.next_id + 2]
             return r.choice(pool)
         if self.live:
             return r.choice(self.live)
@@ -246,6 +250,14 @@ def fixed_cases(component):
     cs.append(("unknown-and-close", ["side s", "reg 1", "unk", "reg 3", "side s", "reg 1", "close", "reg 3"]))
     cs.append(("big-headers", ["side s", "reg 1"] + ["sh 1 0 3.%d 0 0" % n for n in (16000, 18000, 18700, 18720, 18725, 18730, 40000, 0)] +
                ["set 1=0", "sh 1 0 3.5,3.5 0 0", "set 1=4096", "sh 1 0 3.5,3.5 0 0", "sh 1 1 4.70000 1 8"]))
+    sweep = list(range(21830, 21840)) + list(range(43678, 43688))
+    cs.append(("header-boundary-sweep-server", ["side s", "reg 1"] + ["sh 1 0 3.%d 0 0" % n for n in sweep] +
+               sum([["reg %d" % (3 + 2 * k), "sh %d 1 3.%d 1 0" % (3 + 2 * k, n)] for k, n in enumerate(sweep)], []) +
+               ["ea %d 1 3.%d" % (201 + 2 * k, n) for k, n in enumerate(sweep)]))
+    cs.append(("header-boundary-sweep-client", ["side c"] + ["ch %d 3.%d 0" % (1 + 2 * k, n) for k, n in enumerate(sweep)]))
+    cs.append(("header-boundary-trailers-queued", ["side s", "set 4=3"] +
+               sum([["reg %d" % (1 + 2 * k), "data %d 5 0 0 0" % (1 + 2 * k), "tick", "sh %d 1 3.%d 0 0" % (1 + 2 * k, n),
+                     "wu %d 10" % (1 + 2 * k), "tick", "tick"] for k, n in enumerate(sweep)], [])))
     cs.append(("zero-window-empty-endstream", ["side c", "ch 1 - 0", "set 4=0", "data 1 0 0 1 0", "tick", "tick", "ch 3 - 0", "data 3 5 0 0 0",
                                                "data 3 0 0 1 0", "tick", "tick", "set 4=5", "tick", "tick", "tick"]))
     cs.append(("round-robin", ["side s", "wu 0 1000000"] + ["reg %d" % i for i in (1, 3, 5, 7)] +
@@ -254,7 +266,7 @@ def fixed_cases(component):
 
 
 def gen_cases(rng, tier, component, wild_share=0.35):
-    n_cases = {"quick": 400, "thorough": 9000, "search": 4000}[tier]
+    n_cases = {"quick": 300, "thorough": 9000, "search": 4000}[tier]
     for c in fixed_cases(component):
         yield c
     names = list(PROFILES)
